@@ -20,6 +20,7 @@
 #include <cmath>
 #include <map>
 #include <memory>
+#include <stdexcept>
 #include <string>
 #include <utility>
 #include <vector>
@@ -68,6 +69,9 @@ struct Obj
     std::string kind;  //!< coverage class
     ci::SPConstObject obj;
     so::SP ora;
+    //! Non-empty: the library refused to construct this (valid) leaf; `obj` is null and
+    //! build() rethrows the message as std::runtime_error for every program that uses the leaf
+    std::string error;
 };
 
 //---------------------------------------------------------------------------//
@@ -96,6 +100,17 @@ inline std::vector<ld> ldvec(std::vector<double> const& v)
     return std::vector<ld>(v.begin(), v.end());
 }
 }  // namespace detail
+
+//! Number of leaves of the base zoo (what enumerate(thorough) without `extended` iterates over)
+constexpr int num_base_leaves = 50;
+//! Half height of the "gpt*" leaves (GenPrism ends with coincident vertices)
+constexpr double gpt_hz = 1.0;
+//! For the leaves whose end face has a duplicate among its leading three vertices: which end
+//! (-1 lower, +1 upper, 0: not such a leaf)
+inline int leaddup_end(std::string const& leaf_name)
+{
+    return leaf_name == "gptlo" ? -1 : leaf_name == "gpthi" ? 1 : 0;
+}
 
 //! The leaf alphabet: every primitive x >= 2 parameter sets, hollow / sliced solids,
 //! 2-segment polycones and polyprisms.  Sizes ~1-2 so that translated copies overlap partially.
@@ -374,6 +389,42 @@ inline std::vector<Obj> make_leaves()
             std::make_shared<so::PolySolid>(ldvec(in), ldvec(out), ldvec(z), sector(0.3, 0.8), 4,
                                             0.5L));
     }
+    // ---- EXTENDED leaves (index >= num_base_leaves; only enumerate(thorough, true) uses them) ----
+    // -- GenPrism end faces written the G4GenericTrap way: a triangle given by four points, two
+    //    consecutive ones coinciding.  All lateral faces are planar (a quadrilateral end is the
+    //    same triangle with the corner opposite the duplicate cut off), hz = 1.
+    {
+        auto add_gp = [&](std::string name, std::string kind, VR2 lo, VR2 hi) {
+            so::SP ora = std::make_shared<so::GenPrism>(ld(gpt_hz), poly(lo), poly(hi));
+            try
+            {
+                add(name, kind, shape(name, ci::GenPrism{gpt_hz, lo, hi}), ora);
+            }
+            catch (std::exception const& e)
+            {
+                L.push_back({name, kind, nullptr, ora, e.what()});
+            }
+        };
+        // lower face: v0 == v1 (duplicate among the LEADING three vertices)
+        add_gp("gptlo", "genprism-leaddup-lo",
+               VR2{{0.8, -0.8}, {0.8, -0.8}, {0.8, 0.8}, {-0.8, 0.0}},
+               VR2{{0.6, -0.7}, {0.8, -0.6}, {0.8, 0.8}, {-0.8, 0.0}});
+        // upper face: v1 == v2
+        add_gp("gpthi", "genprism-leaddup-hi",
+               VR2{{0.8, -0.8}, {0.8, 0.6}, {0.6, 0.7}, {-0.8, 0.0}},
+               VR2{{0.8, -0.8}, {0.8, 0.8}, {0.8, 0.8}, {-0.8, 0.0}});
+        // triangular prism, both faces with v0 == v1
+        add_gp("gptboth", "genprism-leaddup-both",
+               VR2{{0.8, -0.8}, {0.8, -0.8}, {0.8, 0.8}, {-0.8, 0.0}},
+               VR2{{0.7, -0.6}, {0.7, -0.6}, {0.7, 0.6}, {-0.5, 0.0}});
+        // controls: duplicate NOT among the leading three: v2 == v3 (lower), v3 == v0 (upper)
+        add_gp("gpttail", "genprism-dup-tail",
+               VR2{{0.8, -0.8}, {0.8, 0.8}, {-0.8, 0.0}, {-0.8, 0.0}},
+               VR2{{0.8, -0.8}, {0.8, 0.8}, {-0.6, 0.1}, {-0.6, -0.1}});
+        add_gp("gptwrap", "genprism-dup-wrap",
+               VR2{{0.8, -0.6}, {0.8, 0.8}, {-0.8, 0.0}, {0.6, -0.7}},
+               VR2{{0.8, -0.8}, {0.8, 0.8}, {-0.8, 0.0}, {0.8, -0.8}});
+    }
     return L;
 }
 
@@ -519,6 +570,36 @@ inline std::vector<Xf> make_transforms()
         x.t[0] = 5e-9, x.t[1] = 0, x.t[2] = -2e-9;
         v.push_back(x);
     }
+    // ---- EXTENDED transforms (never part of the base enumeration) ----
+    // mirror pair: +-1/12 turn about x, both centred at the same point of the rotation axis.  A
+    // z-symmetric curved leaf placed under both gives two general quadrics that differ ONLY in
+    // the sign of their cross terms (second/first/zeroth coefficients are identical)
+    for (int sgn : {1, -1})
+    {
+        Xf x;
+        x.name = sgn > 0 ? "tiltp" : "tiltm";
+        so::M3 m = so::rotation_about({1, 0, 0}, ld(sgn) / 12);
+        for (int i = 0; i < 3; ++i)
+            for (int j = 0; j < 3; ++j)
+                x.r[i][j] = double(m.m[i][j]);
+        x.rotates = true;
+        x.t[0] = 0.4, x.t[1] = 0, x.t[2] = 0;
+        v.push_back(x);
+    }
+    // far family: translation t0 with |t0| ~ 50 (and the same with the "gen" rotation), and copies
+    // displaced from it by 4e-3 resp. 8e-3 along (0.48, -0.6, 0.64).  Under the second tolerance
+    // (rel 1e-6, abs 1e-4) these are 40 x resp. 80 x the absolute and 80 x resp. 160 x the
+    // relative tolerance (rel * |t0| = 5e-5): the copies' surfaces must stay distinct.
+    for (int rot = 0; rot < 2; ++rot)
+        for (int k : {0, 4, 8})
+        {
+            Xf x = rot ? v[6] : Xf{};
+            x.name = std::string(rot ? "farg" : "far") + (k ? std::to_string(k) : std::string());
+            x.identity = false;
+            double const d = 1e-3 * k;
+            x.t[0] = 30 + 0.48 * d, x.t[1] = -35 - 0.6 * d, x.t[2] = 20 + 0.64 * d;
+            v.push_back(x);
+        }
     return v;
 }
 inline std::vector<Xf> const& transforms()
@@ -530,6 +611,19 @@ constexpr int num_unary_transforms = 10;  // without "tiny"
 constexpr int num_binary_transforms = 11;
 constexpr int num_daughter_transforms = 7;
 constexpr int xf_tr = 1, xf_gen = 6, xf_tinyrot = 9, xf_tiny = 10;
+constexpr int xf_tiltp = 11, xf_tiltm = 12;
+constexpr int xf_far = 13, xf_far4 = 14, xf_far8 = 15, xf_farg = 16, xf_farg4 = 17, xf_farg8 = 18;
+//! Unit vector of the displacement between the far copies
+constexpr double far_dir[3] = {0.48, -0.6, 0.64};
+
+//! Construction tolerances: 0 = Tolerance::from_default() (rel = abs = 1.5e-8), 1 =
+//! Tolerance::from_relative(1e-6, 100): rel = 1e-6, abs = 1e-4 (abs != rel, length scale != 1)
+constexpr int num_tolerances = 2;
+inline celeritas::Tolerance<> tolerance_of(int index)
+{
+    return index == 0 ? celeritas::Tolerance<>::from_default()
+                      : celeritas::Tolerance<>::from_relative(1e-6, 100.);
+}
 
 inline Obj transformed(Obj const& o, Xf const& x)
 {
@@ -635,6 +729,7 @@ struct Program
     std::vector<UnitModel> units;  //!< [0] is the world
     so::Box3 probe;  //!< finite probe region (slightly larger than the world)
     so::Box3 content;  //!< box around the material regions (world frame), for a denser lattice
+    std::vector<so::Box3> more_content;  //!< further boxes of that kind (one more lattice each)
     //! The leaves of the object tree: diagnostics only (attribution of a disagreement)
     struct Part
     {
@@ -648,6 +743,12 @@ struct Program
     so::M3 tree_r;
     so::V3 tree_t;
     double scale{1};  //!< largest |coordinate| of the world: length scale for the tolerance
+    int tol{0};  //!< index for tolerance_of(): the construction tolerance build_input() uses
+    //! > 0: additionally probe around every change of the expected label along lines parallel to
+    //! `directed_dir` through the content box, at offsets of odd multiples of directed_len / 2
+    //! (thin regions between two copies displaced by directed_len along that direction)
+    double directed_len{0};
+    double directed_dir[3] = {0, 0, 1};
 
     //! Where is the point, by the definition of units/materials/daughters?  `threshold` is the
     //! ambiguity distance (>= 10 x construction tolerance)
@@ -754,11 +855,16 @@ enum Placement
     pl_sphere_bg = 2,  //!< global unit: sphere boundary (zorder media) + background, {A}
     pl_daughter_explicit = 3,  //!< daughter {A, box - A} (media) in explicit world under a transform
     pl_daughter_implicit = 4,  //!< daughter {A} + bg, sphere boundary (exterior) in implicit world
-    num_placements = 5
+    num_placements = 5,  //!< placements of the base zoo
+    // extended (boundary + background only; the shape the Geant4 converter gives every leaf
+    // logical volume):
+    pl_self_world = 5,  //!< global unit {boundary = A (media), background}: no materials at all
+    pl_self_daughter = 6,  //!< daughter {boundary = A (media), background only} in implicit world
+    num_placements_ext = 7
 };
 inline char const* placement_name(int p)
 {
-    static char const* const n[] = {"impl", "expl", "sphbg", "dauX", "dauI"};
+    static char const* const n[] = {"impl", "expl", "sphbg", "dauX", "dauI", "selfW", "selfD"};
     return n[p];
 }
 
@@ -914,6 +1020,18 @@ inline Program place(std::string id, Fill const& fill, int placement, Xf const& 
             wm.materials.push_back({"wrest", rest.ora});
         }
     }
+    else if (placement == pl_self_world)
+    {
+        // the (single) region IS the boundary; the unit has a background and nothing else
+        if (fill.materials.size() != 1)
+            throw std::logic_error("pl_self_world needs exactly one region");
+        wbound = fill.materials[0].second;
+        winp.boundary.zorder = ZOrder::media;
+        winp.background.fill = GeoMaterialId{0};
+        winp.background.label = Label{"wbg"};
+        wm.has_background = true;
+        wm.background_label = "wbg";
+    }
     else if (placement == pl_sphere_bg)
     {
         wbound = enclosing_sphere("wsph", fill.content, 0.3);
@@ -932,8 +1050,20 @@ inline Program place(std::string id, Fill const& fill, int placement, Xf const& 
         UnitModel dm;
         dm.label = "dau";
         Obj dbound;
-        add_materials(dinp, dm, "d");
-        if (placement == pl_daughter_explicit)
+        if (placement != pl_self_daughter)
+            add_materials(dinp, dm, "d");
+        if (placement == pl_self_daughter)
+        {
+            if (fill.materials.size() != 1)
+                throw std::logic_error("pl_self_daughter needs exactly one region");
+            dbound = fill.materials[0].second;
+            dinp.boundary.zorder = ZOrder::media;
+            dinp.background.fill = GeoMaterialId{7};
+            dinp.background.label = Label{"dbg"};
+            dm.has_background = true;
+            dm.background_label = "dbg";
+        }
+        else if (placement == pl_daughter_explicit)
         {
             dbound = enclosing_box("dbox", fill.content, 0.2);
             dinp.boundary.zorder = ZOrder::media;
@@ -957,6 +1087,8 @@ inline Program place(std::string id, Fill const& fill, int placement, Xf const& 
         // world around the transformed daughter
         Obj dplaced = transformed(dbound, pxf);
         world_content = dplaced.ora->bbox();
+        if (!world_content.finite())
+            world_content = transformed(enclosing_box("tmp", fill.content, 0), pxf).ora->bbox();
         ci::UnitProto::DaughterInput di;
         di.fill = dproto;
         di.transform = pxf.variant();
@@ -1016,6 +1148,8 @@ inline Program place(std::string id, Fill const& fill, int placement, Xf const& 
     }
     // probe region: 8% beyond the world boundary's box
     so::Box3 wb = wbound.ora->bbox();
+    if (placement == pl_self_world)
+        wb = enclosing_box("probe", fill.content, 0.3).ora->bbox();
     prog.probe = wb;
     prog.scale = 0;
     for (int k = 0; k < 3; ++k)
@@ -1042,6 +1176,7 @@ struct Key
     int neg{0};
     int place{0};
     int pxf{0};
+    int tol{0};  //!< construction tolerance index (tolerance_of)
 
     std::string id() const
     {
@@ -1051,28 +1186,35 @@ struct Key
         s += ":a=" + L[a].name + ",xa=" + T[xa].name;
         if (kind == 'u')
             s += ",neg=" + std::to_string(neg);
-        if (kind == 'n' || kind == 'c')
+        if (kind == 'n' || kind == 'c' || kind == 'f')
             s += ",xb=" + T[xb].name;
         else if (kind != 'u')
             s += ",b=" + L[b].name + ",xb=" + T[xb].name;
-        if (kind == 'b' || kind == 't' || kind == 'n' || kind == 'c')
+        if (kind == 'b' || kind == 't' || kind == 'n' || kind == 'c' || kind == 'f')
             s += std::string(",op=") + op_name(op1);
+        if (kind == 'h')
+            s += ",order=" + std::to_string(op2);
         if (kind == 't')
             s += ",c=" + L[c].name + ",xc=" + T[xc].name + ",op2=" + op_name(op2);
-        s += std::string(",pl=") + placement_name(place);
-        if (place >= pl_daughter_explicit)
+        s += std::string(",pl=") + (kind == 'h' ? "hier" : placement_name(place));
+        if (place == pl_daughter_explicit || place == pl_daughter_implicit || place == pl_self_daughter)
             s += ",px=" + T[pxf].name;
+        if (tol)
+            s += ",tol=" + std::to_string(tol);
         return s;
     }
 };
 
-//! The finite program space of a tier, in a fixed order
-inline std::vector<Key> enumerate(bool thorough)
+//! The finite program space of a tier, in a fixed order.  `extended` = false: the base zoo (50
+//! leaves, kinds u/b/n/c/p/t; what C19 re-uses); true: additionally the extended leaves in kind u
+//! and the extension families appended at the end (see enumerate_extension).
+inline void enumerate_extension(bool thorough, std::vector<Key>& keys);
+inline std::vector<Key> enumerate(bool thorough, bool extended = false)
 {
     std::vector<Key> keys;
-    int const nl = int(leaves().size());
+    int const nl = num_base_leaves;
     // unary: leaf x transform x {plain, negated} x placement (x daughter transform)
-    for (int a = 0; a < nl; ++a)
+    for (int a = 0; a < (extended ? int(leaves().size()) : nl); ++a)
         for (int xa = 0; xa < num_unary_transforms; ++xa)
             for (int neg = 0; neg < 2; ++neg)
                 for (int pl = 0; pl < num_placements; ++pl)
@@ -1178,8 +1320,160 @@ inline std::vector<Key> enumerate(bool thorough)
                             keys.push_back(k);
                         }
     }
+    if (extended)
+        enumerate_extension(thorough, keys);
     return keys;
 }
+
+//! Extension families (C09 only), appended after the base zoo
+inline void enumerate_extension(bool thorough, std::vector<Key>& keys)
+{
+    int const nb = num_base_leaves;
+    int const nl = int(leaves().size());
+    // c-mirror: the same leaf under the mirror pair of tilts (two general quadrics that differ
+    // only in their cross terms must stay two surfaces)
+    for (int a = 0; a < nb; ++a)
+        for (int op = 0; op < 3; ++op)
+        {
+            Key k;
+            k.kind = 'c';
+            k.a = a, k.b = a, k.xa = xf_tiltp, k.xb = xf_tiltm, k.op1 = op;
+            k.place = pl_implicit;
+            keys.push_back(k);
+        }
+    // b-ext: every extended leaf with three base partners, both operand orders
+    for (int a = nb; a < nl; ++a)
+        for (char const* partner : {"box1", "sph1", "cyl1"})
+            for (int order = 0; order < 2; ++order)
+                for (int op = 0; op < 3; ++op)
+                    for (int xb : {xf_tr, xf_gen})
+                    {
+                        Key k;
+                        k.kind = 'b';
+                        k.a = order ? find_leaf(partner) : a;
+                        k.b = order ? a : find_leaf(partner);
+                        k.op1 = op, k.xb = xb;
+                        k.place = pl_implicit;
+                        k.pxf = xf_gen;
+                        keys.push_back(k);
+                    }
+    // ---- second construction tolerance (tolerance_of(1): rel 1e-6, abs 1e-4) ----
+    // u: every leaf x every transform x polarity x {implicit, explicit} global unit
+    for (int a = 0; a < nl; ++a)
+        for (int xa = 0; xa < num_unary_transforms; ++xa)
+            for (int neg = 0; neg < 2; ++neg)
+                for (int pl : {int(pl_implicit), int(pl_explicit)})
+                {
+                    Key k;
+                    k.kind = 'u';
+                    k.a = a, k.xa = xa, k.neg = neg, k.place = pl, k.tol = 1;
+                    keys.push_back(k);
+                }
+    // c: differently placed copies (4 transform pairs incl. the mirror pair)
+    {
+        int const pairs[4][2] = {{1, 6}, {7, 3}, {2, 8}, {xf_tiltp, xf_tiltm}};
+        for (int a = 0; a < nb; ++a)
+            for (auto const& pr : pairs)
+                for (int op = 0; op < 3; ++op)
+                {
+                    Key k;
+                    k.kind = 'c';
+                    k.a = a, k.b = a, k.xa = pr[0], k.xb = pr[1], k.op1 = op, k.tol = 1;
+                    k.place = pl_implicit;
+                    keys.push_back(k);
+                }
+    }
+    // n: near-coincident copies (quick: under id / tr / gen only)
+    for (int a = 0; a < nb; ++a)
+        for (int xa = 0; xa < num_unary_transforms; ++xa)
+        {
+            if (!thorough && !(xa == 0 || xa == xf_tr || xa == xf_gen))
+                continue;
+            for (int op = 0; op < 3; ++op)
+                for (int xb : {xf_tiny, xf_tinyrot})
+                {
+                    Key k;
+                    k.kind = 'n';
+                    k.a = a, k.b = a, k.xa = xa, k.xb = xb, k.op1 = op, k.tol = 1;
+                    k.place = pl_implicit;
+                    keys.push_back(k);
+                }
+        }
+    // f: two copies of a leaf at |t| ~ 50, displaced by 4e-3 / 8e-3 from one another (far
+    // beyond either tolerance): both tolerances (quick, default tolerance: the 4e-3 pairs only)
+    {
+        int const pairs[4][2]
+            = {{xf_far, xf_far4}, {xf_farg, xf_farg4}, {xf_far, xf_far8}, {xf_farg, xf_farg8}};
+        for (int a = 0; a < nb; ++a)
+            for (int tol = 1; tol >= 0; --tol)
+                for (int pi = 0; pi < 4; ++pi)
+                {
+                    if (!thorough && tol == 0 && pi >= 2)
+                        continue;
+                    for (int op = 0; op < 3; ++op)
+                    {
+                        Key k;
+                        k.kind = 'f';
+                        k.a = a, k.b = a, k.xa = pairs[pi][0], k.xb = pairs[pi][1], k.op1 = op;
+                        k.tol = tol;
+                        k.place = pl_implicit;
+                        keys.push_back(k);
+                    }
+                }
+    }
+    // ---- units made of a boundary and a background only (default tolerance) ----
+    // (the three Parallelepiped leaves with the recorded bounding-box defect are left out: here it
+    // would surface in the parent's daughter volume, under a signature that is not attributed)
+    for (int a = 0; a < nl; ++a)
+        for (int xa = 0; xa < num_unary_transforms; ++xa)
+        {
+            if (leaves()[a].kind.rfind("parallelepiped-", 0) == 0)
+                continue;
+            for (int neg = 0; neg < 2; ++neg)
+                for (int pl : {int(pl_self_world), int(pl_self_daughter)})
+                {
+                    int npx = pl == pl_self_daughter ? num_daughter_transforms : 1;
+                    for (int px = 0; px < npx; ++px)
+                    {
+                        if (!thorough && npx > 1 && (px + xa + neg) % 2)
+                            continue;
+                        Key k;
+                        k.kind = 'u';
+                        k.a = a, k.xa = xa, k.neg = neg, k.place = pl, k.pxf = px;
+                        keys.push_back(k);
+                    }
+                }
+        }
+    // ---- hierarchy: 4 universes, depth 3, one proto placed twice ----
+    // (leaves with a recorded defect of their own are left out: a disagreement in this family
+    // is not attributed to a leaf)
+    {
+        std::vector<int> bs;
+        for (char const* n : {"sph1", "pc1"})
+            bs.push_back(find_leaf(n));
+        if (thorough)
+            for (char const* n : {"box1", "cylsh"})
+                bs.push_back(find_leaf(n));
+        for (int a = 0; a < nb; ++a)
+        {
+            if (leaves()[a].kind.rfind("parallelepiped-", 0) == 0)
+                continue;
+            for (int b : bs)
+                for (int order = 0; order < 2; ++order)
+                    for (int xa : {xf_tr, 2})
+                    {
+                        if (!thorough && xa != xf_tr)
+                            continue;
+                        Key k;
+                        k.kind = 'h';
+                        k.a = a, k.b = b, k.xa = xa, k.xb = xf_gen, k.op2 = order;
+                        keys.push_back(k);
+                    }
+        }
+    }
+}
+
+inline Program build_hierarchy(Key const& k);
 
 //! Build the program of a key.  Construction errors of the library propagate as exceptions.
 inline Program build(Key const& k)
@@ -1191,6 +1485,8 @@ inline Program build(Key const& k)
     std::vector<std::string> tags;
     std::vector<Program::Part> parts;
     auto leaf = [&](int idx, int xf) {
+        if (!L[idx].obj)
+            throw std::runtime_error(L[idx].error);
         tags.push_back("leaf:" + L[idx].kind);
         tags.push_back("xf:" + T[xf].name);
         Obj base = L[idx];
@@ -1223,11 +1519,17 @@ inline Program build(Key const& k)
         tags.push_back(std::string("op:") + op_name(k.op1));
         fill.materials.push_back({"A", detail::bounded(combine(k.op1, a, b), &wrapped)});
     }
-    else if (k.kind == 'c')
+    else if (k.kind == 'h')
+    {
+        Program p = build_hierarchy(k);
+        p.tol = k.tol;
+        return p;
+    }
+    else if (k.kind == 'c' || k.kind == 'f')
     {
         Obj a = leaf(k.a, k.xa);
         Obj b = leaf(k.a, k.xb);
-        tags.push_back(std::string("op:copies-") + op_name(k.op1));
+        tags.push_back(std::string(k.kind == 'f' ? "op:far-copies-" : "op:copies-") + op_name(k.op1));
         fill.materials.push_back({"A", detail::bounded(combine(k.op1, a, b), &wrapped)});
     }
     else if (k.kind == 'n')
@@ -1263,14 +1565,199 @@ inline Program build(Key const& k)
     Program p = place(k.id(), fill, k.place, T[k.pxf]);
     p.tags.insert(p.tags.end(), tags.begin(), tags.end());
     p.parts = std::move(parts);
+    p.tol = k.tol;
+    if (k.tol)
+        p.tags.push_back("tol:" + std::to_string(k.tol));
+    if (k.kind == 'f')
+    {
+        // |T[xb].t - T[xa].t| along far_dir
+        double d2 = 0;
+        for (int i = 0; i < 3; ++i)
+            d2 += (T[k.xb].t[i] - T[k.xa].t[i]) * (T[k.xb].t[i] - T[k.xa].t[i]);
+        p.directed_len = std::sqrt(d2);
+        for (int i = 0; i < 3; ++i)
+            p.directed_dir[i] = far_dir[i];
+    }
     return p;
 }
 
-//! UnitProto -> InputBuilder (default tolerance): the OrangeInput that OrangeParams consumes
+//! Kind h: four universes, depth 3, one proto placed twice, a deep and two shallow daughters:
+//!   world (explicit box; material "wrest") { D1 under P1, D1 under P2, D2 under P3 }
+//!   D1 (explicit box)                     = { "d1A" = xa(A), "d1rest" }
+//!   D2 (implicit sphere + background "d2bg") = { D3 under P4 }
+//!   D3 (explicit box)                     = { "d3B" = xb(B), "d3rest" }
+//! P1 = translation, P2 = "gen" rotation + translation, P3 = quarter turn about z + translation,
+//! P4 = "rx".  Key::op2 = order of the world's daughter list: 0 = D1, D1, D2 (deep one last),
+//! 1 = D2, D1, D1 (deep one first).
+inline Program build_hierarchy(Key const& k)
+{
+    using namespace detail;
+    auto const& L = leaves();
+    auto const& T = transforms();
+    for (int idx : {k.a, k.b})
+        if (!L[idx].obj)
+            throw std::runtime_error(L[idx].error);
+    Program prog;
+    prog.id = k.id();
+    prog.tags = {"place:hier",
+                 std::string("hier:order-") + (k.op2 ? "deep-first" : "deep-last"),
+                 "leaf:" + L[k.a].kind,
+                 "leaf:" + L[k.b].kind,
+                 "xf:" + T[k.xa].name,
+                 "xf:" + T[k.xb].name};
+
+    struct Built
+    {
+        std::shared_ptr<ci::UnitProto const> proto;
+        UnitModel um;
+        Obj bound;
+    };
+    auto explicit_unit = [&](std::string label, std::string prefix, std::string mat, int leaf, int xf) {
+        bool wrapped = false;
+        Obj x = bounded(transformed(L[leaf], T[xf]), &wrapped);
+        so::Box3 c = x.ora->bbox();
+        if (!c.finite())
+            c = context_box().ora->bbox();
+        Built b;
+        b.bound = enclosing_box(prefix + "box", c, 0.2);
+        ci::UnitProto::Input inp;
+        inp.label = label;
+        inp.boundary.interior = b.bound.obj;
+        inp.boundary.zorder = ZOrder::media;
+        inp.materials.push_back(material(x, 1, prefix + mat));
+        Obj rest = rest_of(prefix + "rest", b.bound, {x});
+        inp.materials.push_back(material(rest, 8, prefix + "rest"));
+        b.um.label = label;
+        b.um.boundary = b.bound.ora;
+        b.um.materials.push_back({prefix + mat, x.ora});
+        b.um.materials.push_back({prefix + "rest", rest.ora});
+        b.proto = std::make_shared<ci::UnitProto>(std::move(inp));
+        return b;
+    };
+    Built d1 = explicit_unit("D1", "d1", "A", k.a, k.xa);
+    Built d3 = explicit_unit("D3", "d3", "B", k.b, k.xb);
+
+    // D2: implicit sphere around the placed D3, background only besides the daughter
+    Xf const p4 = T[2];
+    Obj d2bound = enclosing_sphere("d2sph", transformed(d3.bound, p4).ora->bbox(), 0.2);
+    UnitModel d2m;
+    std::shared_ptr<ci::UnitProto const> d2proto;
+    {
+        ci::UnitProto::Input inp;
+        inp.label = "D2";
+        inp.boundary.interior = d2bound.obj;
+        inp.boundary.zorder = ZOrder::exterior;
+        inp.background.fill = GeoMaterialId{7};
+        inp.background.label = Label{"d2bg"};
+        ci::UnitProto::DaughterInput di;
+        di.fill = d3.proto;
+        di.transform = p4.variant();
+        di.zorder = ZOrder::media;
+        inp.daughters.push_back(di);
+        d2m.label = "D2";
+        d2m.boundary = d2bound.ora;
+        d2m.has_background = true;
+        d2m.background_label = "d2bg";
+        d2m.daughters.push_back({3, p4.m3(), p4.v3()});
+        d2proto = std::make_shared<ci::UnitProto>(std::move(inp));
+    }
+
+    Xf p1;
+    p1.name = "h1";
+    p1.t[0] = 9, p1.t[1] = 0.5, p1.t[2] = -0.4;
+    Xf p2 = T[xf_gen];
+    p2.name = "h2";
+    p2.t[0] = -9, p2.t[1] = 1.0, p2.t[2] = 0.6;
+    Xf p3 = T[4];
+    p3.name = "h3";
+    p3.t[0] = 0.3, p3.t[1] = 11.5, p3.t[2] = 0.2;
+    struct Pl
+    {
+        std::shared_ptr<ci::UnitProto const> proto;
+        int unit;
+        Obj bound;
+        Xf xf;
+    };
+    std::vector<Pl> pls;
+    if (k.op2)
+        pls.push_back({d2proto, 2, d2bound, p3});
+    pls.push_back({d1.proto, 1, d1.bound, p1});
+    pls.push_back({d1.proto, 1, d1.bound, p2});
+    if (!k.op2)
+        pls.push_back({d2proto, 2, d2bound, p3});
+
+    ci::UnitProto::Input winp;
+    winp.label = "world";
+    UnitModel wm;
+    wm.label = "world";
+    so::Box3 world_content = so::Box3::make_empty();
+    std::vector<Obj> holes;
+    for (auto const& pl : pls)
+    {
+        Obj placed = transformed(pl.bound, pl.xf);
+        world_content = so::box_union(world_content, placed.ora->bbox());
+        ci::UnitProto::DaughterInput di;
+        di.fill = pl.proto;
+        di.transform = pl.xf.variant();
+        di.zorder = ZOrder::media;
+        winp.daughters.push_back(di);
+        wm.daughters.push_back({pl.unit, pl.xf.m3(), pl.xf.v3()});
+        Obj dint;
+        dint.name = "dint." + pl.xf.name;
+        dint.obj = di.make_interior();
+        dint.ora = placed.ora;
+        holes.push_back(dint);
+    }
+    Obj wbound = enclosing_box("wbox", world_content, 0.3);
+    Obj rest = rest_of("wrest", wbound, holes);
+    winp.materials.push_back(material(rest, 9, "wrest"));
+    wm.materials.push_back({"wrest", rest.ora});
+    winp.boundary.zorder = ZOrder::media;
+    winp.boundary.interior = wbound.obj;
+    wm.boundary = wbound.ora;
+    prog.world = std::make_shared<ci::UnitProto>(std::move(winp));
+    prog.units.resize(4);
+    prog.units[0] = std::move(wm);
+    prog.units[1] = d1.um;
+    prog.units[2] = std::move(d2m);
+    prog.units[3] = d3.um;
+
+    // one lattice per placed leaf unit: its boundary box (x1.05) carried to the world frame
+    auto placed_box = [](Obj const& bound, std::vector<Xf const*> chain) {
+        so::Box3 b = bound.ora->bbox();
+        so::Box3 c = so::Box3::make_empty();
+        for (int corner = 0; corner < 8; ++corner)
+        {
+            so::V3 q{((corner & 1) ? b.hi[0] : b.lo[0]) * 1.05L,
+                     ((corner & 2) ? b.hi[1] : b.lo[1]) * 1.05L,
+                     ((corner & 4) ? b.hi[2] : b.lo[2]) * 1.05L};
+            for (Xf const* x : chain)
+                q = so::to_parent(x->m3(), x->v3(), q);
+            c.grow(q);
+        }
+        return c;
+    };
+    prog.content = placed_box(d1.bound, {&p1});
+    prog.more_content.push_back(placed_box(d1.bound, {&p2}));
+    prog.more_content.push_back(placed_box(d3.bound, {&p4, &p3}));
+    so::Box3 wb = wbound.ora->bbox();
+    prog.probe = wb;
+    prog.scale = 0;
+    for (int i = 0; i < 3; ++i)
+    {
+        prog.probe.lo[i] = wb.lo[i] * 1.08L;
+        prog.probe.hi[i] = wb.hi[i] * 1.08L;
+        prog.scale = std::max(prog.scale, double(std::max(std::fabs(wb.lo[i]), std::fabs(wb.hi[i]))));
+    }
+    return prog;
+}
+
+//! UnitProto -> InputBuilder (the program's tolerance; default: Tolerance::from_default()): the
+//! OrangeInput that OrangeParams consumes
 inline celeritas::OrangeInput build_input(Program const& p)
 {
     ci::InputBuilder::Options opts;
-    opts.tol = celeritas::Tolerance<>::from_default();
+    opts.tol = tolerance_of(p.tol);
     ci::InputBuilder build(std::move(opts));
     return build(*p.world);
 }
